@@ -172,7 +172,18 @@ class Dispatch:
     def _collect_outcomes(self):
         self.outcomes = []
         self.malformed = []
-        for pc, t in self.summary.returns:
+        work = list(self.summary.returns)
+        while work:
+            pc, t = work.pop(0)
+            # a conditional result (helper with two exits, conditional expression) is one outcome
+            # per alternative
+            if t[0] == "phi":
+                work[:0] = [(tuple(pc) + (t[1],), t[2]), (tuple(pc) + (("not", t[1]),), t[3])]
+                continue
+            if t[0] == "cases":
+                work[:0] = [(tuple(pc) + tuple(c for c in cpc if c not in pc), x)
+                            for cpc, x in t[1]]
+                continue
             if not sat(self.conj(pc)):
                 continue            # infeasible combination of a conditional value's alternatives
             if t[0] != "tuple" or len(t[1]) != 2:
